@@ -87,6 +87,13 @@ def _dag_cases(tier, rng):
             f = next(x for x in m["funcs"] if x["name"] == pick)
             f["outputs"] = [f["params"][0]]
             yield {"dag": m, "fault": "output-equals-own-parameter"}
+            # the same clash arrived at by renaming the output; with the parameter bound there is no cycle to fall back on
+            m2 = copy.deepcopy(m)
+            f2 = next(x for x in m2["funcs"] if x["name"] == pick)
+            f2["out_orig"] = {f2["outputs"][0]: "out_before_rename"}
+            if rng.random() < 0.6:
+                f2.setdefault("bound", {})[f2["params"][0]] = "B"
+            yield {"dag": m2, "fault": "output-equals-own-parameter", "alone": rng.random() < 0.5}
         # cycle: the first function additionally consumes the last function's output
         m = copy.deepcopy(d)
         last_out = m["funcs"][-1]["outputs"][0]
@@ -131,6 +138,13 @@ def _check_dag(case):
     log: list = []
     progs.set_log(log)
     try:
+        if case.get("alone"):  # the faulty function on its own: PipeFunc(...) itself must refuse
+            d1 = {**case["dag"], "funcs": [f for f in case["dag"]["funcs"] if f.get("out_orig")]}
+            try:
+                dag.build(d1)
+            except Exception:  # noqa: BLE001
+                return [] if not log else ["user code ran before the rejection"]
+            return [f"{case['fault']}: accepted (function on its own)"]
         try:
             p = dag.build(case["dag"])
         except Exception:  # noqa: BLE001
